@@ -69,6 +69,7 @@ fn arena(seed: u64) -> u64 {
     let flag = true;
     let letter = 'x';
     let unit = ();
+    let unit_ref: &() = &unit;
     let pair = (7u16, -3i8, "pair");
     let point = Point { x: 3, y: -4, tag: "pt" };
     let shapes = [Shape::Empty, Shape::Circle(2.5), Shape::Rect { w: 3, h: 4 }, Shape::Named("n".to_string(), Box::new(Shape::Empty))];
@@ -101,7 +102,7 @@ fn arena(seed: u64) -> u64 {
     acc += map.len() as u64 + set.len() as u64 + tree.len() as u64 + tset.len() as u64 + ring.len() as u64 + boxed.x as u64 + shared2.borrow().len() as u64 + *atomic;
     acc += list.val + maybe.map(|p| p.y as u64).unwrap_or(0) + nothing.unwrap_or(0) as u64 + unsafe { *raw_ptr } + unsafe { bits.f } as u64 + zst.len() as u64 + closure(1);
     acc += small as u64 + neg as u64 + (wide >> 100) as u64 + ratio as u64 + flag as u64 + letter as u64 + pair.0 as u64 + shapes.len() as u64;
-    let _ = unit;
+    let _ = (unit, unit_ref);
     acc
 }
 
@@ -115,7 +116,7 @@ pub fn arena_program(toolchain: &str) -> ProgramSpec {
     ProgramSpec { family: "arena".into(), toolchain: toolchain.into(), opt_level: 0, pie: true, src: ARENA_SRC.into(), functions: vec!["arena".into(), "stop_here".into()], extra_args: vec![] }
 }
 
-const NAMES: &[&str] = &["small", "neg", "wide", "ratio", "flag", "letter", "unit", "pair", "point", "shapes", "numbers", "nested", "text", "slice", "word", "map", "set", "tree", "tset", "ring", "boxed", "shared", "shared2", "atomic", "list", "maybe", "nothing", "raw_ptr", "bits", "zst", "closure", "seed", "r", "acc", "nosuch"];
+const NAMES: &[&str] = &["small", "neg", "wide", "ratio", "flag", "letter", "unit", "pair", "point", "shapes", "numbers", "nested", "text", "slice", "word", "map", "set", "tree", "tset", "ring", "boxed", "shared", "shared2", "atomic", "list", "maybe", "nothing", "raw_ptr", "bits", "zst", "unit_ref", "closure", "seed", "r", "acc", "nosuch"];
 
 fn gen_expr(t: &mut Tape, depth: usize) -> String {
     let base = NAMES[t.choose(NAMES.len())].to_string();
